@@ -37,3 +37,5 @@ git -C /repo checkout -- . ; git -C /repo status --short | head -3
 # evidence written while a seed was applied is not evidence about the tree: put the clean files back
 rm -rf /verif/evidence && mv /tmp/evidence_backup /verif/evidence
 rm -f /verif/replays/*.json   # replays written while a patch was applied are not about the tree
+# the harness binary was last built against the patched tree: rebuild it against the restored one
+( cd /verif/harness && CARGO_NET_OFFLINE=true cargo build --release --offline >/dev/null 2>&1 )
